@@ -370,7 +370,7 @@ def run(R):
                                     and "SignedRegister" in b.locals.get(str(op_local(blk["term"]["args"][1])), "")], "collected_registers.push")
         R.gate("C05.merge.reg", sp, push, [[CallGuard(["ant_registers::register::SignedRegister::verify"], ("Ok",), "register.verify() is Ok")]],
                descr="split registers: only verified registers are merged")
-        R.must_call("C05.merge.reg.merge", SPLIT, ["ant_registers::register::SignedRegister::merge"], "registers are merged (set union of ops)")
+        R.must_call("C05.merge.reg.merge", SPLIT, ["ant_registers::register::SignedRegister::merge", "ant_registers::register::SignedRegister::verified_merge"], "registers are merged (set union of ops)")
         ext = [b for b in sp.blocks if b["term"]["k"] == "call" and not b["cleanup"] and (b["term"]["ncallee"] or "").endswith("HashSet<T, S, A> as core::iter::traits::collect::Extend<T>>::extend")]
         txs = Taint(sp, through="all").closure(call_results(["ant_networking::transactions::get_transactions_from_record", "*::get_transactions_from_record"])(sp))
         oku = bool(ext) and all(op_local(b["term"]["args"][1]) in txs for b in ext)
